@@ -162,6 +162,8 @@ def catalogue(tier='quick'):
         M.append(_rel_model('o2o', req=False, inherit=True))
         M.append(_rel_model('sym_o2o', inherit=True))
         M.append(_rel_model('o2m', req=True, ckey=True))
+        M.append(_rel_model('o2m', req=True, pk='auto'))
+        M.append(_rel_model('o2o', req=True, pk='auto'))
     return M
 
 def by_name(name):
